@@ -247,4 +247,6 @@ func TestVerif_C09_Handlers(t *testing.T) {
 }
 
 // vkRPCh is vkRPC without recover-to-string conversion differences (kept separate for clarity).
-func vkRPCh(h func(*fasthttp.RequestCtx), body string) (int, []byte, interface{}) { return vkRPC(h, body) }
+func vkRPCh(h func(*fasthttp.RequestCtx), body string) (int, []byte, interface{}) {
+	return vkRPC(h, body)
+}
